@@ -2,6 +2,7 @@ package props
 
 import (
 	"fmt"
+	"verif/fw"
 
 	"github.com/cybergarage/go-redis/vrt"
 	"verif/seq"
@@ -102,6 +103,7 @@ func init() {
 	seq.OnTransport = vrt.ResetTicks
 	seq.OnDelivered = vrt.SeqDelivered
 	seq.OnNewConn = vrt.ResetSeqAllowance
+	fw.Poisoned = vrt.WatchdogFired
 }
 
 // guard runs f (with a fresh loop-iteration budget) and converts a panic into a string.
